@@ -241,7 +241,7 @@ fn is_parse_err<T>(r: &Result<T, ConnectionError>) -> bool {
 // ---------------------------------------------------------------------------------------------
 // F-contract: parse_request_line
 // ---------------------------------------------------------------------------------------------
-// @harness props=C01,C02,C04,C14 props_thorough=C03 tiers=quick:B=8;thorough:B=16 unwind=B+2 cap=1500 mem=2 covers=3
+// @harness props=C01,C02,C04,C14,C03,C08 tiers=quick:B=8;thorough:B=16 unwind=B+2 cap=1500 mem=2 covers=3
 // @fn HttpConnection::parse_request_line request::find HttpConnection::shift_buffer_left
 // @claim F-contract(request line): first CRLF at i => line parser called once on w[start..i), start'=i+2, state Headers, fresh pending request; no CRLF => InvalidRequest iff start==0 && end==B, else Ok(false), read_cursor=end-start and the bytes carried to offset 0; queues untouched
 // @bounds window B bytes, arbitrary contents, arbitrary 0<=start<=end<=B; request-line content parser replaced by the surrogate
@@ -299,6 +299,7 @@ fn fc_request_line() {
         }
     }
     assert!(conn.parsed_requests.is_empty() && conn.response_queue.is_empty());
+    assert!(conn.stream.recv_calls.get() == 0, "[C03] a parse step received from the stream (more than one receive per try_read)");
     std::mem::forget(r);
     std::mem::forget(conn);
 }
@@ -311,7 +312,7 @@ fn resp_is_continue(r: &Response, v: Version) -> bool {
 // ---------------------------------------------------------------------------------------------
 // F-contract: parse_headers
 // ---------------------------------------------------------------------------------------------
-// @harness props=C01,C02,C04,C13,C14 props_thorough=C03 tiers=quick:B=8;thorough:B=16 unwind=B+2 cap=1500 mem=3 covers=7
+// @harness props=C01,C02,C04,C13,C14,C03,C08 tiers=quick:B=8;thorough:B=16 unwind=B+2 cap=1500 mem=3 covers=7
 // @fn HttpConnection::parse_headers request::find HttpConnection::shift_buffer_left Response::new
 // @stubs std::string::String::from_utf8_lossy
 // @claim F-contract(headers): CRLF at start => end of headers: content_length 0 -> RequestReady; n>limit -> SizeLimitExceeded(limit,n) (full width n:u32, limit:usize); else WaitingForBody with counter n, empty body, exactly one 100-continue with the request's version iff expect; CRLF at i>start => header parser called once on w[start..i), fatal error propagated, UnsupportedValue ignored, start'=i+2; no CRLF => header SizeLimitExceeded iff start==0 && end==B else carried to offset 0
@@ -411,6 +412,7 @@ fn fc_headers() {
         }
     }
     assert!(conn.parsed_requests.is_empty());
+    assert!(conn.stream.recv_calls.get() == 0, "[C03] a parse step received from the stream (more than one receive per try_read)");
     std::mem::forget(r);
     std::mem::forget(conn);
 }
@@ -653,7 +655,7 @@ fn ser_byte(id: usize, v: Version, j: usize) -> u8 {
     }
 }
 
-// @harness props=C06,C03 tiers=quick:N=5,M=1554|N=5,M=1596|N=5,M=1548|N=5,M=1668|N=5,M=1488,MEM=7|N=5,M=1332|N=5,M=1549|N=5,M=1584,MEM=10;thorough:N=5,M=1554|N=5,M=1596|N=5,M=1548|N=5,M=1668|N=5,M=1488,MEM=7|N=5,M=1332|N=5,M=1549|N=5,M=1362|N=5,M=1572|N=5,M=1584,MEM=10|N=5,M=1416|N=5,M=1764|N=5,M=1524|N=5,M=1512|N=5,M=222|N=5,M=3108|N=5,M=1530|N=5,M=1344|N=5,M=1680|N=5,M=2232|N=5,M=1553|N=6,M=9108|N=6,M=10560 unwind=N+4 cap=1500 mem=3 covers=1
+// @harness props=C06,C03,C09 tiers=quick:N=5,M=1554|N=5,M=1596|N=5,M=1548|N=5,M=1668|N=5,M=1488,MEM=7|N=5,M=1332|N=5,M=1549|N=5,M=1584,MEM=10;thorough:N=5,M=1554|N=5,M=1596|N=5,M=1548|N=5,M=1668|N=5,M=1488,MEM=7|N=5,M=1332|N=5,M=1549|N=5,M=1362|N=5,M=1572|N=5,M=1584,MEM=10|N=5,M=1416|N=5,M=1764|N=5,M=1524|N=5,M=1512|N=5,M=222|N=5,M=3108|N=5,M=1530|N=5,M=1344|N=5,M=1680|N=5,M=2232|N=5,M=1553|N=6,M=9108|N=6,M=10560 unwind=N+4 cap=1500 mem=3 covers=1
 // @fn HttpConnection::try_write HttpConnection::enqueue_response HttpConnection::clear_write_buffer HttpConnection::pending_write
 // @claim history invariant, checked at every step of a sequence of N operations from a fresh connection (operation i is digit i of M in base 6: 0 enqueue_response, 1 try_write accepted completely, 2 try_write accepted partly (any 0 < k < remaining), 3 try_write answered Ok(0), 4 interrupted, 5 failing with EAGAIN or EPIPE): every write call passes the stream exactly the not-yet-accepted suffix of the oldest unsent response (length and an arbitrary byte), exactly one stream write per try_write, none when nothing is pending (InvalidWrite); Ok(k<len) keeps the rest, Ok(len) moves to the next response, EINTR changes nothing, Ok(0)/EAGAIN/EPIPE discard everything and report ConnectionClosed; pending_write() <=> something unsent
 // @bounds N operations with the operation kinds fixed per query (a symbolic kind makes the io::Error drop glue symbolic, which CBMC unwinds recursively) and k, the watched byte and the HTTP version symbolic; responses are identified by distinct status codes and serialized by a 6-byte stand-in instead of Response::write_all (the stand-in is selected by a flag in the dispatch hook; with the flag off the hook calls write_all on the same arguments)
@@ -774,9 +776,15 @@ pub(crate) fn try_read_hook<T: Read + Write + ScmSocket>(c: &mut HttpConnection<
     crate::verif_mock::world().reads[fd] += 1;
     // outcome classes (concrete per query): 0 nothing complete; 1 / 2 that many complete
     // requests; 3 headers of an Expect request complete (100-continue queued); 4 parse error;
-    // 5 end of stream; 13 / 14 = 3 / 4 preceded by one complete request in the same read
+    // 5 end of stream; 13 / 14 = 3 / 4 preceded by one complete request in the same read; 15 = 4 preceded by two
     let plan: u8 = unsafe { READ_PLAN[fd] };
-    let (outcome, before): (u8, u8) = if plan >= 13 { (plan - 10, 1) } else { (plan, 0) };
+    let (outcome, before): (u8, u8) = if plan == 15 {
+        (4, 2)
+    } else if plan >= 13 {
+        (plan - 10, 1)
+    } else {
+        (plan, 0)
+    };
     let mut pushed = 0u8;
     let mut k = 0;
     let n_req = if outcome == 1 || outcome == 2 { outcome } else { before };
@@ -852,6 +860,14 @@ pub(crate) fn queue_len<T>(c: &HttpConnection<T>) -> usize {
     c.response_queue.len()
 }
 
+pub(crate) fn parsed_len<T>(c: &HttpConnection<T>) -> usize {
+    c.parsed_requests.len()
+}
+
+pub(crate) fn queued_status<T>(c: &HttpConnection<T>, i: usize) -> Option<StatusCode> {
+    c.response_queue.get(i).map(|r| r.status())
+}
+
 pub(crate) fn last_queued_status<T>(c: &HttpConnection<T>) -> Option<StatusCode> {
     c.response_queue.back().map(|r| r.status())
 }
@@ -904,11 +920,11 @@ fn feed_slice(conn: &HttpConnection<Mock>, bytes: &[u8], fds: &[RawFd]) {
     conn.stream.nfds.set(fds.len());
 }
 
-// @harness props=C01,C11,C12,C03 tiers=quick:B=8,M=0|B=8,M=1|B=8,M=2|B=8,M=3|B=8,M=4,MEM=10|B=8,M=5|B=8,M=6,MEM=6|B=8,M=7;thorough:B=8,M=0|B=8,M=1|B=8,M=2|B=8,M=3|B=8,M=4,MEM=10|B=8,M=5|B=8,M=6,MEM=6|B=8,M=7|B=16,M=0|B=16,M=1|B=16,M=2|B=16,M=6,MEM=14|B=16,M=7 unwind=B+4 cap=2400 mem=2 covers=1 unwindset=dispatch:9,dispatch_old:9
+// @harness props=C01,C11,C12,C03 tiers=quick:B=8,M=0|B=8,M=1|B=8,M=2|B=8,M=3|B=8,M=4,MEM=10|B=8,M=5|B=8,M=6,MEM=6|B=8,M=7|B=8,M=8;thorough:B=8,M=0|B=8,M=1|B=8,M=2|B=8,M=3|B=8,M=4,MEM=10|B=8,M=5|B=8,M=6,MEM=6|B=8,M=7|B=8,M=8|B=16,M=0|B=16,M=1|B=16,M=2|B=16,M=6,MEM=14|B=16,M=7 unwind=B+4 cap=2400 mem=2 covers=1 unwindset=dispatch:9,dispatch_old:9
 // @fn HttpConnection::try_read HttpConnection::read_and_parse HttpConnection::reset_parser HttpConnection::read_bytes HttpConnection::recv_with_fds HttpConnection::parse_request_line HttpConnection::parse_headers HttpConnection::parse_body HttpConnection::shift_buffer_left
 // @stubs std::string::String::from_utf8_lossy
 // @claim whole try_read on structured reads: (C12) a read that completes a request hands it every descriptor held or received so far, in arrival order, and keeps none; a second request completed by the same read gets none; a read that completes nothing keeps them; (C01) after a completed request the parser continues at the next byte in the same call, a trailing partial line is carried; (C11) whenever try_read returns a ParseError the parser is exactly in the state of a new connection (state, pending request, carried bytes, partial body, counter, held descriptors), requests completed earlier in the same read stay queued; exactly one receive per call
-// @bounds read structure fixed per query M (0: blank line completing a body-less request + 1 fd; 1: same followed by a complete second request; 2: last 2 body bytes + 1 fd; 3: blank line of a request that declares a body: nothing completes, fds kept; 4: rejected request line after a carried prefix; 5: rejected header line; 6: complete request followed by a rejected line; 7: blank line + partial next line); first byte of each line concrete (it selects the surrogate's outcome), in cases 4 and 5 the whole line; other line/body data bytes, descriptor numbers, header values and the carried prefix symbolic; window B; content parsers surrogated
+// @bounds read structure fixed per query M (0: blank line completing a body-less request + 1 fd; 1: same followed by a complete second request; 2: last 2 body bytes + 1 fd; 3: blank line of a request that declares a body: nothing completes, fds kept; 4: rejected request line after a carried prefix; 5: rejected header line; 6: complete request followed by a rejected line; 7: blank line + partial next line; 8: blank line of a request whose declared length exceeds the limit); first byte of each line concrete (it selects the surrogate's outcome), in cases 4 and 5 the whole line; other line/body data bytes, descriptor numbers, header values and the carried prefix symbolic; window B; content parsers surrogated
 #[kani::proof]
 #[kani::stub(std::string::String::from_utf8_lossy, hk::lossy_stub)]
 fn tr_single() {
@@ -925,7 +941,7 @@ fn tr_single() {
     // remaining line / body bytes are symbolic
     let ok0 = 0x05u8; // accepted by the request-line surrogate: PUT, HTTP/1.0
     let mut conn = match CASE {
-        0 | 1 | 3 | 5 | 7 => mk_conn(Shape::HD, 0),
+        0 | 1 | 3 | 5 | 7 | 8 => mk_conn(Shape::HD, 0),
         2 => mk_conn(Shape::BD, 1),
         _ => mk_conn(Shape::RL, 0),
     };
@@ -937,7 +953,7 @@ fn tr_single() {
     // cases 4 and 5 (errors with input still buffered) run without descriptors: with three of
     // them pending at the error the solver needs > 16 GB; closing pending descriptors on reset is
     // decided by c11_reset
-    let with_files = CASE != 4 && CASE != 5;
+    let with_files = CASE != 4 && CASE != 5 && CASE != 8;
     if with_files {
         conn.files.push(unsafe { File::from_raw_fd(held[0]) });
         conn.files.push(unsafe { File::from_raw_fd(held[1]) });
@@ -984,6 +1000,12 @@ fn tr_single() {
             feed_slice(&conn, &[ok0, b'\r', b'\n', b'\r', b'\n', 0x80, b'\r', b'\n'], &[]);
             expect_err = true;
             expect_reqs = 1;
+        }
+        8 => {
+            // end of headers of a request that declares more than the limit
+            hk::set_cl(&mut conn.pending_request.as_mut().unwrap().headers, 2000);
+            feed_slice(&conn, &[b'\r', b'\n'], &[]);
+            expect_err = true;
         }
         _ => {
             hk::set_cl(&mut conn.pending_request.as_mut().unwrap().headers, 0);
